@@ -196,20 +196,22 @@ type poolMsg struct {
 }
 
 type cluster struct {
-	nodes     []*node
-	pool      []poolMsg
-	base      int64
-	script    []step // alphabet of CAS operations (any of them may be issued next)
-	pos       int    // number of CAS operations issued so far
-	maxCAS    int
-	casLog    []step
-	key       string
-	partition bool
-	codec     codec.Codec
-	problem   string
+	nodes       []*node
+	pool        []poolMsg
+	base        int64
+	script      []step // alphabet of CAS operations (any of them may be issued next)
+	pos         int    // number of CAS operations issued so far
+	maxCAS      int
+	casLog      []step
+	key         string
+	partition   bool
+	codec       codec.Codec
+	problem     string
+	keepForever bool
 }
 
-func newCluster(n int, script []step, maxCAS int, partition bool) *cluster {
+// keepForever (optional): the nodes are configured with LeftIngestersTimeout 0 — tombstones are never discarded
+func newCluster(n int, script []step, maxCAS int, partition bool, keepForever ...bool) *cluster {
 	c := &cluster{script: script, maxCAS: maxCAS, codec: ring.GetCodec(), key: ringKey, base: time.Now().Unix(), partition: partition}
 	if partition {
 		c.codec, c.key = ring.GetPartitionRingCodec(), "pring"
@@ -217,7 +219,7 @@ func newCluster(n int, script []step, maxCAS int, partition bool) *cluster {
 	for i := 0; i < n; i++ {
 		cfg := memberlist.KVConfig{
 			RetransmitMult:             1,
-			LeftIngestersTimeout:       retention,
+			LeftIngestersTimeout:       map[bool]time.Duration{false: retention, true: 0}[len(keepForever) > 0 && keepForever[0]],
 			ObsoleteEntriesTimeout:     obsoleteTime,
 			ProcessedMessagesQueueSize: 16,
 			Codecs:                     []codec.Codec{ring.GetCodec(), ring.GetPartitionRingCodec()},
@@ -523,7 +525,7 @@ func (c *cluster) reconcile() {
 			if _, ok := real[id]; ok {
 				continue
 			}
-			if age := now - e.ts; age < int64(retention/time.Second) {
+			if age := now - e.ts; age < int64(retention/time.Second) || c.keepForever {
 				if c.problem == "" {
 					c.problem = fmt.Sprintf("node %d no longer holds the tombstone of %s although it is only %d s old (retention %v)", i, id, age, retention)
 				}
@@ -617,14 +619,15 @@ func (c *cluster) fairSuffix() string {
 // ---------- BFS ----------
 
 type scenario struct {
-	name      string
-	nodes     int
-	script    []step // alphabet of CAS operations
-	maxCAS    int    // at most this many CAS operations per history (every sequence over the alphabet)
-	partition bool   // partition-ring codec and operations instead of the instance ring
-	depth     int
-	ticks     int
-	jumps     int // clock jumps of (retention - 1 s): with the 1 s ticks, tombstones reach ages around the retention
+	name        string
+	nodes       int
+	script      []step // alphabet of CAS operations
+	maxCAS      int    // at most this many CAS operations per history (every sequence over the alphabet)
+	partition   bool   // partition-ring codec and operations instead of the instance ring
+	depth       int
+	ticks       int
+	keepForever bool // retention 0: tombstones are kept (and hidden from readers) for ever
+	jumps       int  // clock jumps of (retention - 1 s): with the 1 s ticks, tombstones reach ages around the retention
 }
 
 func (sc scenario) events(poolSize int) []event {
@@ -662,7 +665,8 @@ type result struct {
 
 func replay(t *testing.T, sc scenario, hist []event, converge bool) (res result) {
 	synctest.Test(t, func(t *testing.T) {
-		c := newCluster(sc.nodes, sc.script, sc.maxCAS, sc.partition)
+		c := newCluster(sc.nodes, sc.script, sc.maxCAS, sc.partition, sc.keepForever)
+		c.keepForever = sc.keepForever
 		defer c.shutdown()
 		res.ok = true
 		for i, e := range hist {
@@ -818,6 +822,9 @@ func scenariosC04() []scenario {
 		{name: "x-around-retention", nodes: 2, depth: d, ticks: 3, jumps: 1, maxCAS: 3, script: []step{{0, opReg, "x"}, {0, opRemove, "x"}, {1, opRemove, "x"}}},
 		{name: "owner-around-retention", nodes: 2, depth: d, ticks: 2, jumps: 1, maxCAS: 3, partition: true, script: []step{{0, "add-partition", ""}, {0, "add-owner", "o"}, {0, "remove-owner", "o"}, {0, "remove-partition", ""}}},
 		{name: "x-leaving-with-bystander", nodes: 2, depth: d, ticks: 1, maxCAS: k, script: []step{{0, opReg, "x"}, {1, opReg, "y"}, {0, opLeave, "x"}, {0, opRemove, "x"}, {1, opRemove, "x"}}},
+		// retention 0 = keep tombstones for ever: still hidden from readers, still blocking resurrection, also after a clock jump
+		{name: "x-kept-for-ever", nodes: 2, depth: d, ticks: 1, jumps: 1, maxCAS: 3, keepForever: true, script: []step{{0, opReg, "x"}, {0, opRemove, "x"}, {1, opRemove, "x"}}},
+		{name: "owner-kept-for-ever", nodes: 2, depth: d, ticks: 1, maxCAS: 3, keepForever: true, partition: true, script: []step{{0, "add-partition", ""}, {0, "add-owner", "o"}, {0, "remove-owner", "o"}}},
 		{name: "x-replaced-by-z", nodes: 2, depth: d, ticks: 1, maxCAS: 3, script: []step{{0, opReg, "x"}, {0, opHeartbeat, "x"}, {0, opReplace, "x"}, {1, opReplace, "x"}}},
 		// partition ring: owner and partition tombstones (the owner's lifecycler writes on node 0; removals anywhere)
 		{name: "partition-owner-removal", nodes: 2, depth: d, ticks: 1, maxCAS: k, partition: true, script: []step{{0, "add-partition", ""}, {0, "add-owner", "o"}, {0, "remove-owner", "o"}, {1, "remove-owner", "o"}}},
